@@ -1,4 +1,622 @@
-(* Case runner and spec checker (T3) for C13 — stub. *)
-From WI Require Import Lib.Base Lib.Info Model.Der.
-Definition run_C13 (op : bytes) (input : arg) : arg := AL [].
-Definition check_C13 (op : bytes) (input impl : arg) : arg := AL [].
+(* Case runner and spec checker (T3) for C13. *)
+From WI Require Import Lib.Base Lib.Info Lib.Strings Lib.Time Model.Der.
+Open Scope N_scope.
+
+(* which variant of the model the correspondence runs: the code as it is now *)
+Definition legacy_now : bool := false.
+
+(* ------------------------------------------------------------------ *)
+(* decoding of inputs, observations                                    *)
+(* ------------------------------------------------------------------ *)
+Fixpoint tlv_of_arg (a : arg) : tlv :=
+  match a with
+  | AL [AZ 0%Z; AZ c; AZ t; AB content] => Prim (Z.to_N c) (Z.to_N t) content
+  | AL [AZ 1%Z; AZ c; AZ t; AL ch] => Cons (Z.to_N c) (Z.to_N t) (map tlv_of_arg ch)
+  | _ => Prim 0 0 []
+  end.
+Definition forest_of_arg (a : arg) : list tlv := map tlv_of_arg (arg_list a).
+
+Definition AN (n : N) : arg := AZ (Z.of_N n).
+Definition Alen {A} (l : list A) : arg := AZ (Z.of_nat (length l)).
+
+(* a parsed element as the harness prints an asn1struct.Raw:
+   (class tag compound #content-if-primitive len(Bytes) len(FullBytes)-len(Bytes) (children)) *)
+Fixpoint raw_enc (t : tlv) : arg * bytes :=        (* the observation and the encoding, in one pass *)
+  match t with
+  | Prim c tag content =>
+      let h := enc_hdr c false tag (N.of_nat (length content)) in
+      (AL [AN c; AN tag; AZ 0; AB content; Alen content; Alen h; AL []], h ++ content)
+  | Cons c tag ch =>
+      let subs := map raw_enc ch in
+      let body := flat_map snd subs in
+      let h := enc_hdr c true tag (N.of_nat (length body)) in
+      (AL [AN c; AN tag; AZ 1; AB []; Alen body; Alen h; AL (map fst subs)], h ++ body)
+  end.
+Definition raw_arg (t : tlv) : arg := fst (raw_enc t).
+
+Definition obs_ok (a : arg) : arg := AL [AZ 0; a].
+
+Definition info_of_obs (a : arg) : info :=
+  match a with
+  | AL [AZ 0%Z; i] => info_of_arg i
+  | _ => empty_info
+  end.
+
+(* typed asn1.Unmarshal(FullBytes, &v) for the Go types Raw.Value used (asn1.go:773-872):
+   class must be universal, the element primitive, the tag the one of the Go type (for string:
+   the string type found on the wire among those Value passes: 12, 18, 19) *)
+Definition typed_unmarshal (kind class : N) (comp : bool) (tag : N) (c : bytes) : arg :=
+  let fail := AL [AZ 1] in
+  if negb (class =? 0) || comp then fail
+  else if kind =? 0 then
+    (if tag =? 1 then match dec_bool c with Some b => obs_ok (ok_arg b) | None => fail end else fail)
+  else if kind =? 1 then
+    (if tag =? 2 then match dec_bigint c with Some z => obs_ok (AB (dec_of_Z z)) | None => fail end else fail)
+  else if kind =? 2 then
+    (if tag =? 6 then match dec_oid_legacy c with Some a => obs_ok (AB (dotted a)) | None => fail end else fail)
+  else if kind =? 3 then
+    (if tag =? 12 then (if utf8_valid c then obs_ok (AB c) else fail)
+     else if tag =? 18 then (if forallb is_numeric c then obs_ok (AB c) else fail)
+     else if tag =? 19 then (if forallb is_printable c then obs_ok (AB c) else fail)
+     else fail)
+  else
+    (if tag =? 23 then
+       match dec_utctime c with Some (sec, off) => obs_ok (AL [AZ sec; AZ off]) | None => fail end
+     else fail).
+
+Definition run_C13 (op : bytes) (input : arg) : arg :=
+  let data := arg_bytes (arg_nth 0 input) in
+  if bytes_eqb op (bs "parse") then
+    obs_result (fun ts => AL (map raw_arg ts)) (parse_raw legacy_now data)
+  else if bytes_eqb op (bs "isasn1") then
+    obs_ok (ok_arg (is_asn1 data))
+  else if bytes_eqb op (bs "raw") then
+    match parse_element data with
+    | Ok (h, content, rest) =>
+        obs_ok (AL [AN (h_class h); AN (h_tag h); ok_arg (h_comp h); AB content; Alen rest;
+                    AZ (Z.of_nat (length data - length rest))])
+    | Err _ => AL [AZ 1]
+    | Panic _ => AL [AZ 2]
+    end
+  else if bytes_eqb op (bs "dump") then
+    let ts := forest_of_arg (arg_nth 1 input) in
+    AL [obs_ok (arg_of_info (describe legacy_now data)); ok_arg (bytes_eqb (encode_forest ts) data)]
+  else if bytes_eqb op (bs "dumpb") then
+    obs_ok (arg_of_info (describe legacy_now data))
+  else if bytes_eqb op (bs "inspect") then
+    obs_ok (arg_of_info (asn1_file legacy_now (info_of_obs (arg_nth 2 input)) data))
+  else if bytes_eqb op (bs "value") then
+    obs_ok (AB (value legacy_now (arg_N (arg_nth 0 input)) (arg_N (arg_nth 1 input)) (arg_bytes (arg_nth 2 input))))
+  else if bytes_eqb op (bs "typed") then
+    typed_unmarshal (arg_N (arg_nth 0 input)) (arg_N (arg_nth 1 input)) (arg_bool (arg_nth 2 input))
+                    (arg_N (arg_nth 3 input)) (arg_bytes (arg_nth 4 input))
+  else if bytes_eqb op (bs "deepcli") then
+    (* (exit status, "unknown ASN.1 data", "ASN.1 data"); beyond 5000 levels the answer is the one
+       Proofs.Der.nested_too_deep proves instead of an evaluation *)
+    let n := arg_N (arg_nth 0 input) in
+    let unknown :=
+      if legacy_now then false
+      else if 5000 <? n then max_depth <? n + 1
+      else bytes_eqb (i_desc (describe legacy_now (encode_tlv (nested (N.to_nat n))))) (bs "unknown ASN.1 data") in
+    AL [AZ 0; ok_arg unknown; ok_arg (negb unknown)]
+  else AL [].
+
+(* ================================================================== *)
+(* The property, evaluated on what the implementation printed.         *)
+(* Everything below is written from X.680 / X.690 / RFC 5280 and the   *)
+(* property text, independently of Model/Der.v.                         *)
+(* ================================================================== *)
+
+(* ---- X.680 clause 8.6, table 1: universal class tag assignments ---- *)
+Definition sp_universal_names : list (N * list bytes) := [
+  (1, [bs "BOOLEAN"]); (2, [bs "INTEGER"]); (3, [bs "BIT STRING"]); (4, [bs "OCTET STRING"]);
+  (5, [bs "NULL"]); (6, [bs "OBJECT IDENTIFIER"]); (7, [bs "ObjectDescriptor"]);
+  (8, [bs "EXTERNAL"; bs "INSTANCE OF"; bs "EXTERNAL, INSTANCE OF"]); (9, [bs "REAL"]);
+  (10, [bs "ENUMERATED"]); (11, [bs "EMBEDDED PDV"]); (12, [bs "UTF8String"]); (13, [bs "RELATIVE-OID"]);
+  (14, [bs "TIME"]); (16, [bs "SEQUENCE"; bs "SEQUENCE OF"; bs "SEQUENCE, SEQUENCE OF"]);
+  (17, [bs "SET"; bs "SET OF"; bs "SET, SET OF"]); (18, [bs "NumericString"]); (19, [bs "PrintableString"]);
+  (20, [bs "TeletexString"; bs "T61String"; bs "TeletexString, T61String"]); (21, [bs "VideotexString"]);
+  (22, [bs "IA5String"]); (23, [bs "UTCTime"]); (24, [bs "GeneralizedTime"]); (25, [bs "GraphicString"]);
+  (26, [bs "VisibleString"; bs "ISO646String"; bs "VisibleString, ISO646String"]); (27, [bs "GeneralString"]);
+  (28, [bs "UniversalString"]); (29, [bs "CHARACTER STRING"]); (30, [bs "BMPString"]); (31, [bs "DATE"]);
+  (32, [bs "TIME-OF-DAY"]); (33, [bs "DATE-TIME"]); (34, [bs "DURATION"]); (35, [bs "OID-IRI"]);
+  (36, [bs "RELATIVE-OID-IRI"])
+].
+
+Fixpoint sp_assoc {A} (k : N) (l : list (N * A)) : option A :=
+  match l with
+  | [] => None
+  | (k', v) :: r => if k' =? k then Some v else sp_assoc k r
+  end.
+
+(* decimal numerals: no sign for naturals, no leading zeros *)
+Fixpoint sp_digits_val (acc : N) (l : bytes) : option N :=
+  match l with
+  | [] => Some acc
+  | d :: r => if (48 <=? d) && (d <=? 57) then sp_digits_val (acc * 10 + (d - 48)) r else None
+  end.
+Definition sp_parse_nat (l : bytes) : option N :=
+  match l with
+  | [] => None
+  | [48] => Some 0
+  | 48 :: _ => None
+  | _ => sp_digits_val 0 l
+  end.
+Definition sp_parse_int (l : bytes) : option Z :=
+  match l with
+  | 45 :: r => match sp_parse_nat r with
+               | Some 0 => None
+               | Some n => Some (- Z.of_N n)%Z
+               | None => None
+               end
+  | _ => match sp_parse_nat l with Some n => Some (Z.of_N n) | None => None end
+  end.
+
+Definition sp_label_ok (class tag : N) (label : bytes) : bool :=
+  match (if class =? 0 then sp_assoc tag sp_universal_names else None) with
+  | Some alts => existsb (bytes_eqb label) alts
+  | None => match sp_parse_nat label with Some n => n =? tag | None => false end
+  end.
+
+(* ---- lower-case hex of the content octets ---- *)
+Definition sp_hexdigit (d : N) : N := if d <? 10 then 48 + d else 97 + (d - 10).
+Fixpoint sp_hex (l : bytes) : bytes :=
+  match l with
+  | [] => []
+  | b :: r => sp_hexdigit (b / 16) :: sp_hexdigit (b mod 16) :: sp_hex r
+  end.
+
+Definition sp_unsigned (c : bytes) : N := fold_left (fun a b => a * 256 + b) c 0.
+
+(* ---- X.690 8.3 INTEGER: two's complement, fewest octets ---- *)
+Definition sp_int (c : bytes) : option Z :=
+  match c with
+  | [] => None
+  | b0 :: _ =>
+      let bits := Z.of_nat (8 * length c)%nat in
+      let u := Z.of_N (sp_unsigned c) in
+      let z := (if (b0 <? 128)%N then u else u - 2 ^ bits)%Z in
+      let shorter := (Nat.ltb 1 (length c) && (- 2 ^ (bits - 9) <=? z)%Z && (z <? 2 ^ (bits - 9))%Z) in
+      if shorter then None else Some z
+  end.
+
+(* ---- X.690 8.19 OBJECT IDENTIFIER ---- *)
+Fixpoint sp_subids (started : bool) (acc : N) (l : bytes) : option (list N) :=
+  match l with
+  | [] => if started then None else Some []
+  | b :: r =>
+      if negb started && (b =? 128) then None
+      else
+        let v := acc * 128 + b mod 128 in
+        if b <? 128 then
+          match sp_subids false 0 r with Some vs => Some (v :: vs) | None => None end
+        else sp_subids true v r
+  end.
+Definition sp_oid (c : bytes) : option (list N) :=
+  match c with
+  | [] => None
+  | _ =>
+      match sp_subids false 0 c with
+      | Some (s0 :: rest) =>
+          Some (if s0 <? 40 then 0 :: s0 :: rest else if s0 <? 80 then 1 :: (s0 - 40) :: rest else 2 :: (s0 - 80) :: rest)
+      | _ => None
+      end
+  end.
+Fixpoint sp_all_some {A} (l : list (option A)) : option (list A) :=
+  match l with
+  | [] => Some []
+  | Some x :: r => match sp_all_some r with Some xs => Some (x :: xs) | None => None end
+  | None :: _ => None
+  end.
+Definition sp_parse_dotted (s : bytes) : option (list N) := sp_all_some (map sp_parse_nat (split_on 46 s)).
+Fixpoint sp_list_eqb (a b : list N) : bool :=
+  match a, b with
+  | [], [] => true
+  | x :: a', y :: b' => (x =? y) && sp_list_eqb a' b'
+  | _, _ => false
+  end.
+
+(* ---- RFC 3629: well-formed UTF-8 byte sequences ---- *)
+Definition sp_in (lo hi b : N) : bool := (lo <=? b) && (b <=? hi).
+Fixpoint sp_utf8 (l : bytes) : bool :=
+  match l with
+  | [] => true
+  | b0 :: r =>
+      if b0 <? 128 then sp_utf8 r
+      else if sp_in 194 223 b0 then
+        match r with b1 :: r1 => sp_in 128 191 b1 && sp_utf8 r1 | _ => false end
+      else if sp_in 224 239 b0 then
+        match r with
+        | b1 :: b2 :: r2 =>
+            (if b0 =? 224 then sp_in 160 191 b1 else if b0 =? 237 then sp_in 128 159 b1 else sp_in 128 191 b1)
+            && sp_in 128 191 b2 && sp_utf8 r2
+        | _ => false
+        end
+      else if sp_in 240 244 b0 then
+        match r with
+        | b1 :: b2 :: b3 :: r3 =>
+            (if b0 =? 240 then sp_in 144 191 b1 else if b0 =? 244 then sp_in 128 143 b1 else sp_in 128 191 b1)
+            && sp_in 128 191 b2 && sp_in 128 191 b3 && sp_utf8 r3
+        | _ => false
+        end
+      else false
+  end.
+
+(* ---- X.680 41.4 table 10 PrintableString, table 9 NumericString ---- *)
+Definition sp_printable (b : N) : bool :=
+  sp_in 65 90 b || sp_in 97 122 b || sp_in 48 57 b ||
+  existsb (N.eqb b) [32; 39; 40; 41; 43; 44; 45; 46; 47; 58; 61; 63].
+Definition sp_numeric (b : N) : bool := sp_in 48 57 b || (b =? 32).
+
+(* ---- X.680 47 UTCTime, century per RFC 5280 4.1.2.5.1 ---- *)
+Definition sp_d (b : N) : option Z := if sp_in 48 57 b then Some (Z.of_N (b - 48)) else None.
+Definition sp_2 (a b : N) : option Z :=
+  match sp_d a, sp_d b with Some x, Some y => Some (10 * x + y)%Z | _, _ => None end.
+Definition sp_leap (y : Z) : bool := ((y mod 4 =? 0) && (negb (y mod 100 =? 0) || (y mod 400 =? 0)))%Z.
+Definition sp_mdays (y m : Z) : Z :=
+  (if m =? 2 then (if sp_leap y then 29 else 28)
+   else if (m =? 4) || (m =? 6) || (m =? 9) || (m =? 11) then 30 else 31)%Z.
+(* days since 1900-01-01, by summation *)
+Definition sp_days (y m d : Z) : Z :=
+  (fold_left (fun a k => a + (if sp_leap (1900 + Z.of_nat k) then 366 else 365)) (seq 0 (Z.to_nat (y - 1900))) 0
+   + fold_left (fun a k => a + sp_mdays y (Z.of_nat k)) (seq 1 (Z.to_nat (m - 1))) 0
+   + (d - 1))%Z.
+Definition sp_instant (y mo d h mi s off : Z) : Z :=
+  (sp_days y mo d * 86400 + h * 3600 + mi * 60 + s - off)%Z.
+Definition sp_fields_ok (y mo d h mi s : Z) : bool :=
+  ((1 <=? mo) && (mo <=? 12) && (1 <=? d) && (d <=? sp_mdays y mo) && (h <=? 23) && (mi <=? 59) && (s <=? 59))%Z.
+
+Inductive sp_class := SpDer (instant : Z) | SpBer (instant : Z) | SpInvalid.
+
+Definition sp_zone (z : bytes) : option (Z * bool) :=     (* offset east in seconds, is-Z *)
+  match z with
+  | [90] => Some (0%Z, true)
+  | [sg; a; b; c; d] =>
+      match sp_2 a b, sp_2 c d with
+      | Some hh, Some mm =>
+          if ((hh <=? 24) && (mm <=? 59))%Z then
+            if sg =? 43 then Some (((hh * 60 + mm) * 60)%Z, false)
+            else if sg =? 45 then Some ((- ((hh * 60 + mm) * 60))%Z, false)
+            else None
+          else None
+      | _, _ => None
+      end
+  | _ => None
+  end.
+
+Definition sp_utctime (c : bytes) : sp_class :=
+  match c with
+  | y1 :: y2 :: m1 :: m2 :: d1 :: d2 :: h1 :: h2 :: i1 :: i2 :: rest =>
+      match sp_2 y1 y2, sp_2 m1 m2, sp_2 d1 d2, sp_2 h1 h2, sp_2 i1 i2 with
+      | Some yy, Some mo, Some d, Some h, Some mi =>
+          let y := (if 50 <=? yy then 1900 + yy else 2000 + yy)%Z in
+          let with_secs := match rest with
+                           | s1 :: s2 :: z => match sp_2 s1 s2 with Some s => Some (s, z) | None => None end
+                           | _ => None
+                           end in
+          let no_secs := Some (0%Z, rest) in
+          let attempt (sz : option (Z * bytes)) (has_secs : bool) : option sp_class :=
+            match sz with
+            | Some (s, z) =>
+                match sp_zone z with
+                | Some (off, isz) =>
+                    if sp_fields_ok y mo d h mi s then
+                      Some (if has_secs && isz then SpDer (sp_instant y mo d h mi s off)
+                            else SpBer (sp_instant y mo d h mi s off))
+                    else Some SpInvalid
+                | None => None
+                end
+            | None => None
+            end in
+          match attempt no_secs false with
+          | Some r => r
+          | None => match attempt with_secs true with Some r => r | None => SpInvalid end
+          end
+      | _, _, _, _, _ => SpInvalid
+      end
+  | _ => SpInvalid
+  end.
+
+(* a rendering of an instant: YYYY-MM-DDThh:mm:ssZ, or YYYY-MM-DDThh:mmZ when the seconds are 0 *)
+Definition sp_4 (a b c d : N) : option Z :=
+  match sp_2 a b, sp_2 c d with Some x, Some y => Some (100 * x + y)%Z | _, _ => None end.
+Definition sp_rendered_instant (v : bytes) : option Z :=
+  match v with
+  | y1 :: y2 :: y3 :: y4 :: 45 :: m1 :: m2 :: 45 :: d1 :: d2 :: 84 :: h1 :: h2 :: 58 :: i1 :: i2 :: rest =>
+      match sp_4 y1 y2 y3 y4, sp_2 m1 m2, sp_2 d1 d2, sp_2 h1 h2, sp_2 i1 i2 with
+      | Some y, Some mo, Some d, Some h, Some mi =>
+          let s := match rest with
+                   | [90] => Some 0%Z
+                   | [58; s1; s2; 90] => sp_2 s1 s2
+                   | _ => None
+                   end in
+          match s with
+          | Some s => if sp_fields_ok y mo d h mi s && (1900 <=? y)%Z then Some (sp_instant y mo d h mi s 0) else None
+          | None => None
+          end
+      | _, _, _, _, _ => None
+      end
+  | _ => None
+  end.
+
+(* ---- the value shown for a primitive element ---- *)
+Definition sp_value_ok (class tag : N) (c v : bytes) : bool :=
+  let hex := bytes_eqb v (sp_hex c) in
+  if negb (class =? 0) then hex
+  else if tag =? 1 then
+    match c with
+    | [0] => bytes_eqb v (bs "false")
+    | [255] => bytes_eqb v (bs "true")
+    | [_] => hex || bytes_eqb v (bs "true")          (* BER TRUE, not DER *)
+    | _ => hex
+    end
+  else if tag =? 2 then
+    match sp_int c with
+    | Some z => match sp_parse_int v with Some z' => Z.eqb z z' | None => false end
+    | None => hex
+    end
+  else if tag =? 5 then
+    match c with [] => bytes_eqb v (bs "null") | _ => hex end
+  else if tag =? 6 then
+    match sp_oid c with
+    | Some arcs => match sp_parse_dotted v with Some a => sp_list_eqb a arcs | None => false end
+    | None => hex
+    end
+  else if tag =? 12 then (if sp_utf8 c then bytes_eqb v c else hex)
+  else if tag =? 18 then (if forallb sp_numeric c then bytes_eqb v c else hex || bytes_eqb v c)
+  else if tag =? 19 then (if forallb sp_printable c then bytes_eqb v c else hex || bytes_eqb v c)
+  else if tag =? 23 then
+    match sp_utctime c with
+    | SpDer t => match sp_rendered_instant v with Some t' => Z.eqb t t' | None => false end
+    | SpBer t => hex || match sp_rendered_instant v with Some t' => Z.eqb t t' | None => false end
+    | SpInvalid => hex
+    end
+  else hex.
+
+(* ---- the node shown for an element ---- *)
+Definition sp_split (desc : bytes) : option (bytes * bytes) :=
+  match index_of (bs ": ") desc with
+  | Some k => Some (take k desc, drop (k + 2) desc)
+  | None => None
+  end.
+
+Definition sp_first {A} (l : list (option A)) : option A :=
+  fold_right (fun x acc => match x with Some _ => x | None => acc end) None l.
+
+(* None = the node mirrors the element; Some reason otherwise *)
+Fixpoint sp_match (t : tlv) (i : info) : option string :=
+  match t, i with
+  | Prim c tag content, Info desc attrs ch =>
+      match ch, attrs with
+      | [], [] =>
+          match sp_split desc with
+          | Some (label, v) =>
+              if negb (sp_label_ok c tag label) then Some "wrong label of a primitive element"%string
+              else if sp_value_ok c tag content v then None
+              else Some "value of a primitive element not rendered faithfully"%string
+          | None => Some "primitive element shown without a value"%string
+          end
+      | _, _ => Some "primitive element shown with children or attributes"%string
+      end
+  | Cons c tag sub, Info desc attrs ch =>
+      match attrs with
+      | [] =>
+          if negb (sp_label_ok c tag desc) then Some "wrong label of a constructed element"%string
+          else if negb (Nat.eqb (length sub) (length ch)) then Some "number of child nodes differs from the number of nested elements"%string
+          else sp_first ((fix go (ts : list tlv) (is : list info) : list (option string) :=
+                            match ts, is with
+                            | t' :: ts', i' :: is' => sp_match t' i' :: go ts' is'
+                            | _, _ => []
+                            end) sub ch)
+      | _ => Some "constructed element shown with attributes"%string
+      end
+  end.
+
+Fixpoint sp_height (t : tlv) : N :=
+  match t with
+  | Prim _ _ _ => 1
+  | Cons _ _ ch => 1 + fold_left N.max (map sp_height ch) 0
+  end.
+Fixpoint sp_max_tag (t : tlv) : N :=
+  match t with
+  | Prim _ tag _ => tag
+  | Cons _ tag ch => fold_left N.max (map sp_max_tag ch) tag
+  end.
+
+(* limits the implementation is allowed to have: Go's 31-bit tags, and the declared nesting limit,
+   which must itself be generous *)
+Definition sp_min_depth_limit : N := 64.
+Definition sp_within_limits (ts : list tlv) : bool :=
+  forallb (fun t => (sp_max_tag t <? 2147483648) && (sp_height t <=? N.max max_depth sp_min_depth_limit)) ts.
+
+Definition sp_forest_match (ts : list tlv) (i : info) : option string :=
+  match i with
+  | Info desc attrs ch =>
+      if bytes_eqb desc (bs "unknown ASN.1 data") then
+        (if sp_within_limits ts then Some "well-formed DER reported as unknown ASN.1 data"%string else None)
+      else if negb (bytes_eqb desc (bs "ASN.1 data")) then Some "unexpected description of the dump"%string
+      else if negb (Nat.eqb (length ts) (length ch)) then Some "number of top-level nodes differs from the number of elements"%string
+      else match attrs with
+           | [] => sp_first ((fix go (ts : list tlv) (is : list info) : list (option string) :=
+                                match ts, is with
+                                | t' :: ts', i' :: is' => sp_match t' i' :: go ts' is'
+                                | _, _ => []
+                                end) ts ch)
+           | _ => Some "dump with attributes"%string
+           end
+  end.
+
+(* ---- X.690 8.1: one element = identifier, length, contents; DER = canonical octets ---- *)
+Fixpoint sp_digits (fuel : nat) (base n : N) (acc : list N) : list N :=
+  match fuel with
+  | O => acc
+  | S f => let acc' := (n mod base) :: acc in
+           if n / base =? 0 then acc' else sp_digits f base (n / base) acc'
+  end.
+Definition sp_base (base n : N) : list N := sp_digits (S (N.to_nat (N.size n))) base n [].
+Fixpoint sp_cont (l : list N) : list N :=       (* bit 8 set on all but the last group *)
+  match l with
+  | [] => []
+  | [x] => [x]
+  | x :: r => (128 + x) :: sp_cont r
+  end.
+Definition sp_ident_octets (c : N) (comp : bool) (t : N) : bytes :=
+  let b0 := 64 * c + (if comp then 32 else 0) in
+  if t <? 31 then [b0 + t] else (b0 + 31) :: sp_cont (sp_base 128 t).
+Definition sp_len_octets (n : N) : bytes :=
+  if n <? 128 then [n] else let d := sp_base 256 n in (128 + N.of_nat (length d)) :: d.
+
+(* tolerant (BER-like) reading of identifier and length octets *)
+Fixpoint sp_read_b128 (acc : N) (l : bytes) : option (N * bytes) :=
+  match l with
+  | [] => None
+  | b :: r => let a := acc * 128 + b mod 128 in
+              if b <? 128 then Some (a, r) else sp_read_b128 a r
+  end.
+Definition sp_read_len (l : bytes) : option (N * bytes) :=
+  match l with
+  | [] => None
+  | lb :: r =>
+      if lb <? 128 then Some (lb, r)
+      else if lb =? 128 then None
+      else let k := N.to_nat (lb - 128) in
+           if Nat.ltb (length r) k then None else Some (sp_unsigned (firstn k r), skipn k r)
+  end.
+
+(* one element at the front of [bs]: class, constructed, tag, contents, what follows.
+   Accepted only when the identifier and length octets are exactly the canonical ones. *)
+Definition sp_element (bs : bytes) : option (N * bool * N * bytes * bytes) :=
+  match bs with
+  | [] => None
+  | b :: r =>
+      let c := b / 64 in
+      let comp := (b / 32) mod 2 =? 1 in
+      match (if b mod 32 =? 31 then sp_read_b128 0 r else Some (b mod 32, r)) with
+      | Some (t, r1) =>
+          match sp_read_len r1 with
+          | Some (len, r2) =>
+              if N.of_nat (length r2) <? len then None
+              else
+                let hdr_len := (length bs - length r2)%nat in
+                if bytes_eqb (firstn hdr_len bs) (sp_ident_octets c comp t ++ sp_len_octets len)
+                then Some (c, comp, t, firstn (N.to_nat len) r2, skipn (N.to_nat len) r2)
+                else None
+          | None => None
+          end
+      | None => None
+      end
+  end.
+
+Definition sp_one_element (bs : bytes) : bool :=
+  match sp_element bs with
+  | Some (_, _, _, _, []) => true
+  | _ => false
+  end.
+
+Fixpoint sp_forest (fuel : nat) (bs : bytes) : option (list tlv) :=
+  match fuel with
+  | O => None
+  | S f =>
+      match sp_element bs with
+      | Some (c, comp, t, content, rest) =>
+          let item :=
+            if comp then
+              match content with
+              | [] => Some (Cons c t [])
+              | _ => match sp_forest f content with Some ch => Some (Cons c t ch) | None => None end
+              end
+            else Some (Prim c t content) in
+          match item, rest with
+          | Some it, [] => Some [it]
+          | Some it, _ => match sp_forest f rest with Some more => Some (it :: more) | None => None end
+          | None, _ => None
+          end
+      | None => None
+      end
+  end.
+
+Fixpoint sp_encode (t : tlv) : bytes :=
+  match t with
+  | Prim c tag content => sp_ident_octets c false tag ++ sp_len_octets (N.of_nat (length content)) ++ content
+  | Cons c tag ch =>
+      let body := flat_map sp_encode ch in
+      sp_ident_octets c true tag ++ sp_len_octets (N.of_nat (length body)) ++ body
+  end.
+
+(* an implementation observation of ParseRaw back to a tree *)
+Fixpoint tlv_of_raw (a : arg) : tlv :=
+  match a with
+  | AL [AZ c; AZ t; AZ 0%Z; AB content; _; _; _] => Prim (Z.to_N c) (Z.to_N t) content
+  | AL [AZ c; AZ t; _; _; _; _; AL ch] => Cons (Z.to_N c) (Z.to_N t) (map tlv_of_raw ch)
+  | _ => Prim 0 0 []
+  end.
+
+Definition verdict (o : option string) : arg :=
+  match o with None => AL [] | Some s => AB (bytes_of_string s) end.
+
+Definition check_C13 (op : bytes) (input impl : arg) : arg :=
+  let data := arg_bytes (arg_nth 0 input) in
+  if bytes_eqb op (bs "dump") then
+    match arg_nth 0 impl with
+    | AL [AZ 0%Z; ia] => verdict (sp_forest_match (forest_of_arg (arg_nth 1 input)) (info_of_arg ia))
+    | _ => AS "the dump failed (panic or error)"
+    end
+  else if bytes_eqb op (bs "inspect") then
+    match impl with
+    | AL [AZ 0%Z; ia] =>
+        if bytes_eqb (i_desc (info_of_obs (arg_nth 2 input))) (bs "unknown ASN.1 data")
+        then verdict (sp_forest_match (forest_of_arg (arg_nth 1 input)) (info_of_arg ia))
+        else AL []          (* a recognised key or certificate type: not this property *)
+    | _ => AS "inspection failed (panic or error)"
+    end
+  else if bytes_eqb op (bs "dumpb") then
+    match impl with
+    | AL [AZ 0%Z; ia] =>
+        let i := info_of_arg ia in
+        match sp_forest (S (length data)) data with
+        | Some ts => verdict (sp_forest_match ts i)
+        | None =>
+            if bytes_eqb (i_desc i) (bs "unknown ASN.1 data") then AL []
+            else AS "data that is not a sequence of complete DER elements reported as ASN.1"
+        end
+    | _ => AS "the dump failed (panic or error)"
+    end
+  else if bytes_eqb op (bs "parse") then
+    match impl with
+    | AL [AZ 0%Z; AL raws] =>
+        let ts := map tlv_of_raw raws in
+        if is_nil ts then AS "parse succeeded with no element"
+        else if bytes_eqb (flat_map sp_encode ts) data then AL []
+        else AS "parsed structure does not re-encode to the input"
+    | AL [AZ 1%Z] =>
+        match sp_forest (S (length data)) data with
+        | Some ts => if sp_within_limits ts then AS "well-formed DER rejected by the parser" else AL []
+        | None => AL []
+        end
+    | _ => AS "the parser failed (panic)"
+    end
+  else if bytes_eqb op (bs "isasn1") then
+    match impl with
+    | AL [AZ 0%Z; AZ b] =>
+        let one := sp_one_element data in
+        if negb (Z.eqb b 0) && negb one then AS "data that is not exactly one complete DER element reported as ASN.1"
+        else if Z.eqb b 0 && one &&
+                match sp_element data with Some (_, _, t, _, _) => t <? 2147483648 | None => false end
+        then AS "one complete DER element not recognised as ASN.1"
+        else AL []
+    | _ => AS "the sniffer failed (panic)"
+    end
+  else if bytes_eqb op (bs "value") then
+    match impl with
+    | AL [AZ 0%Z; AB v] =>
+        if sp_value_ok (arg_N (arg_nth 0 input)) (arg_N (arg_nth 1 input)) (arg_bytes (arg_nth 2 input)) v then AL []
+        else AS "value of a primitive element not rendered faithfully"
+    | _ => AS "rendering a value failed (panic or error)"
+    end
+  else if bytes_eqb op (bs "deepcli") then
+    match impl with
+    | AL [AZ 0%Z; AZ u; AZ k] =>
+        if (Z.eqb u 0 && Z.eqb k 0) then AS "deeply nested DER: neither a dump nor unknown ASN.1 data" else AL []
+    | _ => AS "the program failed on deeply nested DER (non-zero exit status)"
+    end
+  else AL [].
